@@ -84,7 +84,7 @@ def shard(col, shard_i, ngrammars, ninputs, full):
             lrec = False
         elif lrec:
             g, kind = G.lrec_grammar(rng)
-            texts = G.lrec_inputs(rng, ninputs, g=g)
+            texts = G.lrec_inputs(rng, ninputs + 8, g=g)
             col.count('grammar.lrec.' + kind)
         elif gi % 6 == 3:
             # leaf rules whose values are plain strings, so that rejecting / raising actions fire (C06's family)
